@@ -131,8 +131,14 @@ def setitem(I, obj, idx, value):
         raise Unsupported("SSeq item store")
     if isinstance(obj, SCompressed) and isinstance(idx, SCompressed) and idx.kind == "bool" \
             and A.same_mask(I, idx.maskfn, obj.maskfn) and not A.is_arraylike(value):
-        # x[x > 1] = 1 on a selection (a selection is a copy in numpy, so only this object changes)
         f, g = obj.fn, idx.fn
+        if isinstance(obj.src, tuple) and len(obj.src) == 2 and isinstance(obj.src[0], S2D):
+            # a column of a (row-selected) matrix is a VIEW: the store goes through to the matrix
+            m2, c = obj.src
+            setitem2d(I, m2, (idx, c), value)
+            obj.fn = lambda i: A.ite_val(V.bterm(g(i)), value, f(i))
+            return
+        # x[x > 1] = 1 on a selection (a selection is a copy in numpy, so only this object changes)
         obj.fn = lambda i: A.ite_val(V.bterm(g(i)), value, f(i))
         I.mutations.append(obj)
         return
@@ -434,6 +440,8 @@ def iterate(I, v):
 def arr_getitem(I, arr, idx):
     if idx is Ellipsis:
         return arr          # a[...] is a view of the whole array
+    if isinstance(idx, tuple) and len(idx) == 2 and idx[0] is Ellipsis:
+        return arr_getitem(I, arr, idx[1])      # a[..., k] of a 1-D array is a[k]
     if isinstance(idx, SArray) and idx.kind == "bool":
         s = arr.snap()
         m = idx.snap()
@@ -551,6 +559,18 @@ def method_of(I, obj, name):
         impl = I.lib.get("ndarray." + name)
         if impl is not None:
             return BM(obj, B("ndarray." + name, impl))
+    if isinstance(obj, (set, frozenset)) and name in ("issubset", "issuperset", "isdisjoint", "union", "intersection",
+                                                       "difference", "symmetric_difference", "copy"):
+        # methods of concrete sets that do not modify the set (arguments: concrete iterables)
+        def setm(I, self, *others, _n=name):
+            args = []
+            for o in others:
+                items = [I.resolve(v) for v in _plain(iterate(I, o))]
+                if not all(isinstance(x, (str, int, bool, Fraction, tuple, type(None))) for x in items):
+                    raise Unsupported("set operation with symbolic elements")
+                args.append(set(items))
+            return getattr(set(self), _n)(*args)
+        return BM(obj, B("set." + name, setm))
     if type(obj).__name__ == "S2D":
         impl = I.lib.get("ndarray2d." + name)
         if impl is not None:
@@ -632,6 +652,12 @@ def install_builtins(I):
     def b_range(I, *a):
         if all(isinstance(x, int) for x in a):
             return list(range(*a))
+        hv = I.ghost.get("havoc_range")
+        if hv is not None and len(a) == 1 and isinstance(a[0], SInt) and z3.eq(z3.simplify(a[0].term), hv[0]):
+            # havoc iteration granted by the contract: the body of `for i in range(<this length>)` runs ONCE for an
+            # arbitrary index (the contract is responsible for the body not depending on earlier iterations)
+            I.trusted.add("loop verified for one arbitrary iteration (havoc): range over a symbolic length")
+            return [SInt(hv[1])]
         raise Unsupported("range with symbolic bound (needs a loop invariant)")
     bi["range"] = B("range", b_range)
     def b_enumerate(I, x, start=0):
@@ -652,6 +678,20 @@ def install_builtins(I):
             return [(SInt(ii), x.at(ii))]
         return [(i + start, v) for i, v in enumerate(iterate(I, x))]
     bi["enumerate"] = B("enumerate", b_enumerate)
+
+    _NO_DEFAULT = object()
+
+    def b_next(I, it, default=_NO_DEFAULT):
+        # next() of a generator expression / iterator that the engine evaluates eagerly: its first element.
+        # Only for freshly built sequences (a generator expression argument); guarded elements are not supported.
+        items = _plain(iterate(I, it)) if not isinstance(it, list) else _plain(it)
+        if items:
+            return items[0]
+        if default is _NO_DEFAULT:
+            I.raise_py("StopIteration", "")
+        return default
+    bi["next"] = B("next", b_next)
+    bi["slice"] = B("slice", lambda I, *a: slice(*a))
     bi["zip"] = B("zip", lambda I, *xs: [tuple(t) for t in zip(*[iterate(I, x) for x in xs])])
     def b_list(I, x=()):
         it = iterate(I, x)
@@ -1212,6 +1252,78 @@ def install_numpy(I):
         return f(a, b)
     L["numpy.isclose"] = isclose
 
+    def logical2(op):
+        def f(I, a, b, **k):
+            if k:
+                raise Unsupported("logical ufunc with keywords")
+            g = (lambda x, y: SBool(z3.Or(V.bterm(I.as_bool_val(x)) if not isinstance(I.as_bool_val(x), bool) else z3.BoolVal(I.as_bool_val(x)),
+                                          V.bterm(I.as_bool_val(y)) if not isinstance(I.as_bool_val(y), bool) else z3.BoolVal(I.as_bool_val(y))))) \
+                if op == "or" else None
+            if A.is_arraylike(a) or A.is_arraylike(b):
+                return A.elementwise(I, g, a, b, kind="bool")
+            return g(a, b)
+        return f
+    L["numpy.logical_or"] = logical2("or")
+
+    def logical_not(I, a, **k):
+        g = lambda x: SBool(z3.Not(V.bterm(I.as_bool_val(x)) if not isinstance(I.as_bool_val(x), bool) else z3.BoolVal(I.as_bool_val(x))))
+        if A.is_arraylike(a):
+            return A.elementwise(I, g, a, kind="bool")
+        return g(a)
+    L["numpy.logical_not"] = logical_not
+
+    def putmask(I, a, mask, values):
+        # np.putmask(a, mask, v): a[mask] = v for a scalar v
+        if not isinstance(a, SArray) or A.is_arraylike(values):
+            raise Unsupported("putmask of this kind")
+        arr_setitem(I, a, mask, values)
+    L["numpy.putmask"] = putmask
+
+    def nd_fill(I, self, value):
+        if not isinstance(self, SArray) or A.is_arraylike(value):
+            raise Unsupported("fill of this kind")
+        self.write(I, lambda i: value)
+    L["ndarray.fill"] = nd_fill
+
+    def nd_astype(I, self, dtype=None, **k):
+        # bool -> integer types: 0/1 ; anything else: a copy with the same values (A1)
+        if isinstance(self, SArray):
+            sn = self.snap()
+            if self.kind == "bool":
+                return SArray(self.length, lambda i: SInt(z3.If(V.bterm(sn(i)), 1, 0)), "int")
+            return SArray(self.length, sn, self.kind)
+        raise Unsupported("astype of this value")
+    L["ndarray.astype"] = nd_astype
+
+    def attrgetter(I, *names):
+        if not names or not all(isinstance(n_, str) and "." not in n_ for n_ in names):
+            raise Unsupported("attrgetter of this form")
+
+        def get(I, obj):
+            vals = tuple(I.getattr(obj, n_) for n_ in names)
+            return vals[0] if len(vals) == 1 else vals
+        return sx.Builtin("attrgetter" + repr(names), get)
+    L["operator.attrgetter"] = attrgetter
+
+    def chain_from_iterable(I, its):
+        out = []
+        for it in _plain(iterate(I, its)):
+            out.extend(_plain(iterate(I, it)))
+        return out
+    L["itertools.chain.from_iterable"] = chain_from_iterable
+    L["itertools.chain"] = lambda I, *its: chain_from_iterable(I, list(its))
+    import operator as _op
+    for _nm, _astop in (("add", "Add"), ("sub", "Sub"), ("mul", "Mult"), ("truediv", "Div"), ("pow", "Pow")):
+        L["operator." + _nm] = (lambda I, a, b, _o=_astop: I.binop(_o, a, b))
+
+    def finfo(I, t=None):
+        # machine parameters of IEEE double precision (exact rationals)
+        o = sx.Obj(sx.ClassVal("finfo", [sx.OBJECT], {}))
+        o.attrs.update(eps=Fraction(1, 2 ** 52), tiny=Fraction(1, 2 ** 1022), resolution=Fraction(1, 10 ** 15),
+                       max=Fraction(2 ** 1024 - 2 ** 971), min=-Fraction(2 ** 1024 - 2 ** 971))
+        return o
+    L["numpy.finfo"] = finfo
+
     def np_minmax2(which):
         def f(I, a, b, out=None, **k):
             def sc(x, y):
@@ -1232,6 +1344,9 @@ def install_numpy(I):
         if isinstance(a, SArray) and a.kind == "bool":
             sn = a.snap()
             return SCompressed(lambda i: SInt(i), lambda i: V.bterm(sn(i)), a.length, "int")
+        if isinstance(a, (list, tuple)) and all(isinstance(x, (bool, SBool)) for x in a):
+            # concrete length: the index i is in the result iff a[i] (the loop over it is case-split per entry)
+            return [("__forked__", x if isinstance(x, bool) else x.term, i) for i, x in enumerate(a)]
         raise Unsupported("flatnonzero of this value")
     L["numpy.flatnonzero"] = flatnonzero
 
@@ -1672,6 +1787,19 @@ def install_numpy2(I):
         zero = Fraction(0) if kind == "real" else 0
         return SArray(n if isinstance(n, (int, SInt)) else n, lambda i: zero, kind)
     L["numpy.zeros"] = np_zeros
+
+    def np_full(I, shape, fill_value, dtype=None, **k):
+        if isinstance(shape, (tuple, list)):
+            if len(shape) != 1:
+                raise Unsupported("np.full with more than one dimension")
+            shape = shape[0]
+        is_float = dtype is None or (getattr(dtype, "name", None) == "float")
+        if not isinstance(shape, (int, SInt)) or A.is_arraylike(fill_value) or not is_float or k:
+            raise Unsupported("np.full with these arguments")
+        fv = V.to_frac(fill_value) if isinstance(fill_value, float) else fill_value
+        kind = "bool" if isinstance(fv, (bool, SBool)) else ("int" if isinstance(fv, (int, SInt)) else "real")
+        return SArray(shape, lambda i: fv, kind)
+    L["numpy.full"] = np_full
     L["numpy.arange"] = lambda I, n: SArray(n, lambda i: SInt(i), "int")
     L["numpy.uint8"] = Opaque("dtype")
 
